@@ -8,6 +8,7 @@ CONSTANTS Keys = {1, 2}
           EK = 0
           TName = "IntKeyMap"
           NHeld = 1
+          NEnum = 0
 VIEW View
 ACTION_CONSTRAINT DumpT
 INVARIANTS SetOK RefuseOK KeysBagExact ValuesBagExact EntriesBagExact NilIsAValue
